@@ -13,7 +13,12 @@ helpers / nested functions / closures / lambdas / functools.partial objects are 
 with ``which`` bound to each letter (any chain order, early returns, ``match``, a table of functions), the element-wise application over
 ``np.broadcast`` is one construct in all its spellings, the Newton loop is analysed pass-wise over every path through its body (loop test, break in
 either arm, return from inside, a flag carried to the next pass, ``with`` / ``try`` around it) and the bracket rule reads sign tests off the value of a
-test, not its spelling, following the search into helpers and out to the caller that made the first test.
+test, not its spelling, following the search into helpers and out to the caller that made the first test.  What a helper establishes about the
+values it returns goes with those values to every call site: each way a helper returns is a case of its own in the caller (the sign facts, the returned
+values, whether a returned value is None / a flag is set), so a search that *returns* the bracket - or None when none is needed - is read like the
+inlined search; a helper call may sit anywhere in a statement (argument of another call, starred, element expression of a comprehension or body of a
+loop over the broadcast operands).  A loop the evaluator does not execute is summarised by what every definition reaching its exit has in common
+(a number, never None), so a test of the kind `b is None` after the helper is decided and no path that cannot happen is explored.
 
 A construct that cannot be lowered gives ANALYSIS-ERROR (exit 2), never VIOLATION: an array filled by a loop the evaluator does not follow is
 *unknown*, a test or a Newton step through an unmodelled function is *unknown*.
